@@ -30,9 +30,10 @@ from harness.core import Ctx, corpus, crash_name, enc_text
 from harness.extract import ExtractError
 
 ID = "C10"
-GEN = ["SdkJson"]
+GEN = ["SdkJson", "XmlText"]
 
 JSONIZATION = "aas_core_codegen/python/lib/_generate_jsonization.py"
+XMLIZATION = "aas_core_codegen/python/lib/_generate_xmlization.py"
 
 # =========================================================================== Gen extractor
 
@@ -162,6 +163,59 @@ def gen_SdkJson(repo: pathlib.Path) -> str:
     out.append(f"def bytesCatches : List String := {lst(catches)}")
     out.append("end AasVerif.Gen.SdkJson")
     return "\n".join(out) + "\n"
+
+
+def gen_XmlText(repo: pathlib.Path) -> str:
+    """The ``str.replace`` chain of ``_Serializer._escape_and_write_text`` (template inside ``_generate_xmlization.py``)."""
+    from harness.extract import _parse
+
+    mod = _parse(repo, XMLIZATION)
+    found = None
+    for node in ast.walk(mod):
+        if isinstance(node, ast.JoinedStr):
+            consts = [p.value for p in node.values if isinstance(p, ast.Constant) and isinstance(p.value, str)]
+            if consts and consts[0].lstrip().startswith("def _escape_and_write_text("):
+                if found is not None:
+                    raise ExtractError("two templates of _escape_and_write_text")
+                found = node
+    if found is None:
+        raise ExtractError("template of _escape_and_write_text not found")
+    src = []
+    for part in found.values:
+        if isinstance(part, ast.Constant):
+            src.append(part.value)
+        elif isinstance(part, ast.FormattedValue) and isinstance(part.value, ast.Name) and set(part.value.id) == {"I"}:
+            src.append("    " * len(part.value.id))
+        else:
+            raise ExtractError("unexpected placeholder in the template of _escape_and_write_text")
+    try:
+        tree = ast.parse("".join(src))
+    except SyntaxError as e:
+        raise ExtractError(f"the template of _escape_and_write_text does not parse: {e}")
+    fn = tree.body[0]
+    body = [s for s in fn.body if not (isinstance(s, ast.Expr) and isinstance(s.value, ast.Constant))]
+    if not (len(body) == 1 and isinstance(body[0], ast.Expr) and isinstance(body[0].value, ast.Call)
+            and ast.unparse(body[0].value.func) == "self.stream.write" and len(body[0].value.args) == 1):
+        raise ExtractError("_escape_and_write_text: expected a single `self.stream.write(<chain>)`")
+    steps: List[Tuple[str, str]] = []
+    e = body[0].value.args[0]
+    while isinstance(e, ast.Call) and isinstance(e.func, ast.Attribute) and e.func.attr == "replace":
+        if not (len(e.args) == 2 and not e.keywords and all(isinstance(a, ast.Constant) and isinstance(a.value, str) for a in e.args)
+                and len(e.args[0].value) == 1):
+            raise ExtractError("_escape_and_write_text: a replace() call is not (one character, text)")
+        steps.append((e.args[0].value, e.args[1].value))
+        e = e.func.value
+    if not (isinstance(e, ast.Name) and e.id == "text"):
+        raise ExtractError("_escape_and_write_text: the chain does not start at `text`")
+    steps.reverse()
+    items = ", ".join("(%d, [%s])" % (ord(a), ", ".join(str(ord(c)) for c in b)) for a, b in steps)
+    return (
+        "/-! GENERATED by harness/props/c10.py from aas_core_codegen/python/lib/_generate_xmlization.py — do not edit. -/\n"
+        "namespace AasVerif.Gen.XmlText\n"
+        "/-- the chain `text.replace(a, b).replace(…)…` of `_escape_and_write_text`, in application order: (code point, replacement) -/\n"
+        f"def escapeSteps : List (Nat × List Nat) := [{items}]\n"
+        "end AasVerif.Gen.XmlText\n"
+    )
 
 
 # =========================================================================== wire format
@@ -539,7 +593,7 @@ def judge_roundtrip(m: Model, wire: str, through: str) -> List[Tuple[str, str]]:
                 bad.append(("C10:json-roundtrip:diff", f"JSON round trip through {through} changes the instance at {d}"))
         except m.JE as e:
             cause = str(getattr(e, "cause", ""))
-            if "modelType" in cause and '"modelType"' not in text:
+            if "modelType" in cause and isinstance(doc, dict) and "modelType" not in doc and len(e.path.segments) == 0:
                 bad.append(("C10:json-roundtrip:dispatch-without-model-type",
                             f"{through}_from_jsonable rejects the SDK's own document of a {type(inst).__name__}: {cause}"))
             else:
@@ -891,6 +945,73 @@ def run_small_streams(ctx: Ctx) -> None:
             ctx.disagree(stream, {"op": op, "arg": arg if isinstance(arg, str) else arg.hex()}, w, g)
 
 
+XML_CLASSES = ["&", "a", "m", "p", ";", "#", "1", "3", "x", "<", ">", "\r", "\n", "l", "t", "g", "0", "D", "\t", "\x0b", "é", "\ufffe", "q", "u", "o", "s"]
+
+
+def xml_text_inputs(ctx: Ctx) -> Iterator[Tuple[str, str]]:
+    import itertools
+
+    fixed = ["", "a\rb", "a\r\nb", "\r", "\r\r\n\n", "&amp;", "&#13;", "&#xD;", "&#x0d;", "&#0013;", "&#0;", "&#1;", "&#x110000;", "&#xFFFE;", "&#xfffd;",
+             "&#xD800;", "&#55296;", "&amp", "&;", "&#;", "&#x;", "&# 13;", "&unknown;", "&apos;&quot;&lt;&gt;", "]]>", "]]&gt;", "a&#13;\nb", "&#13;&#10;",
+             "&AMP;", "&#X41;", "&#x41;", "&#65;", "&#9;", "&#10;", "\x00", "\x7f", "\x85", "\u2028", "\U0001F600", "&#128512;", "&#x1F600;", "&#99999999999999999999;"]
+    for t in fixed:
+        yield t, "xmltext-fixed"
+    small = ["&", "a", ";", "#", "1", "x", "<", "\r", "\n"]
+    for k in range(1, 5):
+        for tup in itertools.product(small, repeat=k):
+            yield "".join(tup), "xmltext-enumerated"
+    rng = ctx.rng
+    for _ in range(ctx.n(3000, 60000)):
+        k = rng.randrange(0, 10)
+        yield "".join(rng.choice(XML_CLASSES) for _ in range(k)), "xmltext-random"
+    for _ in range(ctx.n(500, 10000)):
+        parts = [rng.choice(["&amp;", "&lt;", "&gt;", "&#13;", "&#10;", "&#x9;", "&#xd;", "\r", "\n", "\r\n", "a", " ", "&quot;", "&apos;", "&#38;", "&#60;"]) for _ in range(rng.randrange(0, 7))]
+        yield "".join(parts), "xmltext-random"
+
+
+def run_xml_text_stream(ctx: Ctx) -> None:
+    """``XmlText.escape`` vs the generated ``_escape_and_write_text``; ``XmlText.content`` vs ``xml.etree`` (expat)."""
+    import io
+    import xml.etree.ElementTree as ET
+
+    m = Model(header() + "class Holder(DBC):\n    text: str\n\n    def __init__(self, text: str) -> None:\n        self.text = text\n", "xmltext")
+    if not m.ok:
+        raise RuntimeError(f"the xml text holder model is not accepted: {m.error}")
+    try:
+        reqs: List[str] = []
+        wants: List[str] = []
+        metas: List[Tuple[str, str, str]] = []
+        for t, stream in xml_text_inputs(ctx):
+            # the parser model
+            try:
+                t.encode("utf-8")
+            except UnicodeEncodeError:
+                continue
+            try:
+                el = ET.fromstring("<a>" + t + "</a>")
+                want = "none" if len(el) else "ok " + enc_text(el.text or "")
+            except ET.ParseError:
+                want = "none"
+            reqs.append("xmlcontent " + enc_text(t))
+            wants.append(want)
+            metas.append(("xmlcontent", t, stream))
+            # the writer
+            buf = io.StringIO()
+            m.sdk.xmlization._Serializer(buf)._escape_and_write_text(t)
+            reqs.append("xmlesc " + enc_text(t))
+            wants.append(enc_text(buf.getvalue()))
+            metas.append(("xmlesc", t, stream))
+        got = ctx.model(reqs)
+        for (op, t, stream), w, g in zip(metas, wants, got):
+            ctx.count((op, t), nontrivial=len(t) > 0, stream=stream)
+            ctx.traces_validated += 1
+            ctx.hit(f"{op}:{w.split(' ')[0] if op == 'xmlcontent' else 'ok'}")
+            if w != g:
+                ctx.disagree(stream, {"op": op, "text": t}, w, g)
+    finally:
+        m.close()
+
+
 class Budget:
     def __init__(self, ctx: Ctx) -> None:
         self.models = ctx.n(26, 400)
@@ -1120,6 +1241,7 @@ def _run(ctx: Ctx, with_model: bool) -> None:
             ctx.disagree("corpus", {k: v for k, v in inp.items() if k != "mm"}, res.get("impl"), res["model"])
     if with_model:
         run_small_streams(ctx)
+        run_xml_text_stream(ctx)
     t_gen = 0.0
     n_models = 0
     for label, source in model_sources(ctx, budget):
